@@ -239,16 +239,21 @@ def g2FromInts (x y : Fp2) : Except Err (Fp2 × Fp2) :=
 /-- `G2Point.Compress` on marshalled coordinates: (x.imag with the parity bit of y.imag, x.real). -/
 def compressG2 (x y : Fp2) : Nat × Nat := (orTop x.y (yParity y.y), x.x)
 
-/-- `DecompressToG2` on 64 bytes given as two 256-bit values `(hi, lo)` = `(m[0:32], m[32:64])`. -/
-def decompressG2 (hi lo : Nat) : Except Err (Fp2 × Fp2) :=
+/-- `DecompressToG2` on 64 bytes given as two 256-bit values `(hi, lo)` = `(m[0:32], m[32:64])`,
+    with the square-root routine as a parameter (theorems are stated for every `sqrt` with the
+    properties proved of `sqrtGfP2`). -/
+def decompressG2With (sqrt : Fp2 → Option Fp2) (hi lo : Nat) : Except Err (Fp2 × Fp2) :=
   if hi = 0 ∧ lo = 0 then g2FromInts Fp2.zero Fp2.zero else
   let x : Fp2 := ⟨lo, hi % two255⟩
   let y2 := Fp2.add (Fp2.pow x 3) twistB
-  match sqrtGfP2 y2 with
+  match sqrt y2 with
   | none => .error .nosqrt
   | some y =>
     let y : Fp2 := if (hi / two255) % 2 ≠ yParity y.y then ⟨P - y.x, P - y.y⟩ else y
     g2FromInts x y
+
+/-- `DecompressToG2` (fixed code: `sqrtGfP2` with the 16-step bound). -/
+def decompressG2 (hi lo : Nat) : Except Err (Fp2 × Fp2) := decompressG2With sqrtGfP2 hi lo
 
 /-! ## Monitor -/
 
